@@ -681,13 +681,11 @@ Proof. intros i v (A & B & C & D & E) Fv L1 L2 U. unfold fi_prev. rewrite U.
 (* full statement: both branches (the ulp branch through Proofs/UlpBits.v) *)
 Notation negzero := (Binary.B754_zero 53 1024 true).
 Theorem fi_next_full : forall i v, wf i -> fin v -> fle (imin i) v = true -> fle v (imax i) = true ->
-  (v <> negzero \/ flt (istep i) (ulp_of v) = false) ->
   inside i (fi_next i v) /\ fle v (fi_next i v) = true.
-Proof. intros i v W Fv L1 L2 Hz. destruct (flt (istep i) (ulp_of v)) eqn:U.
+Proof. intros i v W Fv L1 L2. destruct (flt (istep i) (ulp_of v)) eqn:U.
   2:{ now apply fi_next_step_branch. }
-  destruct Hz as [Nz|Hz]; [|discriminate].
   destruct W as (A & B & C & D & E). unfold fi_next. rewrite U.
-  destruct (next_float_props v Fv Nz) as (Nn & Ln & _).
+  destruct (next_float_props v Fv) as (Nn & Ln & _).
   assert (L1' := proj1 (fle_fin _ _ A Fv) L1). assert (L2' := proj1 (fle_fin _ _ Fv B) L2).
   destruct (fgt (next_float v) (imax i)) eqn:T.
   - unfold inside. repeat split; auto using fle_refl_fin. apply fle_fin; auto.
@@ -847,13 +845,14 @@ Lemma w5_ok : wf_b w5_i = true /\ magn_b w5_i (f64_of_Z 1) = true /\
   obs (tsmin_fi w5_i 1) = Some (0x3ff0000000000000, 0x3fefff2e48e8a71e, 0x3f50624dd2f1a9fc, true, true)%Z.
 Proof. vm_compute. repeat split. Qed.
 
-(* F5: next(-0.0) with step < f64::EPSILON goes through next_float(-0.0) = from_bits(0x8000000000000000 + 1)
-   = -5e-324: BELOW the argument and below min = 0.0 (outside the interval).  [0,1] step 1e-17 *)
+(* F5 (repaired in /repo aed2bd1): next(-0.0) with step < f64::EPSILON goes through next_float(-0.0), which was
+   from_bits(0x8000000000000000 + 1) = -5e-324 (below the argument and below min = 0.0) and is now 5e-324.  [0,1] step 1e-17 *)
 Definition w6_i := mkfi (of_bits 0x0000000000000000) (of_bits 0x3ff0000000000000) (of_bits 0x3c670ef54646d497).
 Definition w6_v := of_bits 0x8000000000000000.
 Lemma w6_ok : wf_b w6_i = true /\ fle (imin w6_i) w6_v = true /\ fle w6_v (imax w6_i) = true /\
-  to_bits (fi_next w6_i w6_v) = 0x8000000000000001%Z /\
-  flt (fi_next w6_i w6_v) w6_v = true /\ flt (fi_next w6_i w6_v) (imin w6_i) = true.
+  to_bits w6_v = 0x8000000000000000%Z /\ flt (istep w6_i) (ulp_of w6_v) = true /\
+  to_bits (fi_next w6_i w6_v) = 1%Z /\
+  flt w6_v (fi_next w6_i w6_v) = true /\ fle (imin w6_i) (fi_next w6_i w6_v) = true.
 Proof. vm_compute. repeat split. Qed.
 
 (* ================================================================ non-vacuity *)
